@@ -18,6 +18,14 @@ def read_lines(path):
     return {"lines": [[ord(c) for c in l] for l in body.split("\n")], "final_newline": fin}
 
 
+def eol(seed, i):
+    """line terminator of corpus line i: universal newlines make \\n, \\r\\n and a bare \\r equivalent"""
+    if seed is None:
+        return "\n"
+    h = (seed * 1000003 + i * 7919) % 10
+    return {0: "\r\n", 1: "\r"}.get(h, "\n")
+
+
 def handler(payload):
     from pyndl import preprocess
     warnings.simplefilter("ignore")
@@ -26,9 +34,9 @@ def handler(payload):
     for k, job in enumerate(payload["jobs"]):
         corpus = os.path.join(wd, "corpus_%d.txt" % k)
         target = os.path.join(wd, "events_%d.tab.gz" % k)
-        with open(corpus, "w", encoding="utf-8", newline="\n") as f:
-            for l in job["lines"]:
-                f.write("".join(map(chr, l)) + "\n")
+        with open(corpus, "w", encoding="utf-8", newline="") as f:
+            for i, l in enumerate(job["lines"]):
+                f.write("".join(map(chr, l)) + eol(job.get("eol_seed"), i))
         before = None
         if job["exists"]:
             with open(target, "wb") as f:
